@@ -231,6 +231,9 @@ func propCheck(c Case) (fail string, at int) {
 		if panics != (kind == K_PANIC) {
 			return fmt.Sprintf("step %d %s: panic expected %v, observed kind %d", k, o.Op, panics, kind), k
 		}
+		if o.Op == "VEquals" && o.X <= 0 {
+			pay = nil // known finding C03-EQEPS0 (epsilon <= 0): see known()
+		}
 		if pay != nil && kind == K_OK && !eqList(pay, p) {
 			return fmt.Sprintf("step %d %s: result %v, expected %v (storage r=%v a=%v b=%v)", k, o.Op, p, pay, o.R, o.A, o.B), k
 		}
@@ -551,4 +554,30 @@ func hunt(o Opts) {
 	b, _ := json.MarshalIndent(r, "", " ")
 	os.MkdirAll(o.Out, 0755)
 	os.WriteFile(o.Out+"/hunt.json", b, 0644)
+}
+
+// ---------------------------------------------------------------- known findings
+
+// known replays the witnesses of the recorded findings on the implementation.
+func known(o Opts) {
+	type kf struct {
+		Id        string `json:"id"`
+		Confirmed bool   `json:"confirmed"`
+		Detail    string `json:"detail"`
+	}
+	var out []kf
+	{
+		// C03-EQEPS0: Equals(x, x, epsilon = 0): the sparse joint iterator never visits a
+		// position where both are zero (true), the dense loop tests |0-0| < 0 there (false)
+		w := &World{Type: "float64"}
+		w.execOne(Op{Op: "NewS", L: []int64{}, L2: []int64{}, I: 1})
+		w.execOne(Op{Op: "NewD", L: []int64{0}})
+		_, ps := w.execOne(Op{Op: "VEquals", A: Ref{true, 0}, B: Ref{true, 0}, X: 0})
+		_, pd := w.execOne(Op{Op: "VEquals", A: Ref{false, 0}, B: Ref{false, 0}, X: 0})
+		out = append(out, kf{"C03-EQEPS0", len(ps) == 1 && len(pd) == 1 && ps[0] == 1 && pd[0] == 0,
+			fmt.Sprintf("x=[0]: sparse x.Equals(x, 0) = %v, dense x.Equals(x, 0) = %v", ps, pd)})
+	}
+	b, _ := json.MarshalIndent(out, "", " ")
+	os.MkdirAll(o.Out, 0755)
+	os.WriteFile(o.Out+"/known.json", b, 0644)
 }
